@@ -62,6 +62,13 @@ def _design(ctx):
 
 
 LOCKSTEP = {"C02", "C04", "C05", "C41"}       # properties that also get the lock-step clauses of Interp.tla
+CMDLOCK = {"C06", "C10", "C11", "C13"}        # properties that also get the lock-step clauses of CmdMgr.tla
+
+
+def _cmdlock(ctx):
+    from . import cmdlock
+    viols, cov, stats = cmdlock.run_lockstep(ctx)
+    return {"viols": [(v.key, v.case, v.detail, v.replay) for v in viols], "cov": cov}
 
 
 def _lockstep(ctx):
@@ -95,6 +102,12 @@ def run(ctx: core.Ctx) -> core.Outcome:
         for key, case, detail, replay in lk["viols"]:
             if core.prop_of(key) == ctx.prop:
                 viols.append(core.Violation(key=key, case=case, detail=detail, replay=replay))
+    if ctx.prop in CMDLOCK:
+        ck, _ = core.cached("cmdlock", ctx, lambda: _cmdlock(ctx))
+        lock_cov = dict(lock_cov, **ck["cov"])
+        for key, case, detail, replay in ck["viols"]:
+            if core.prop_of(key) == ctx.prop:
+                viols.append(core.Violation(key=key, case=case, detail=detail, replay=replay))
     if design_run["states"] == 0:
         # no separate design spec for this property: the TLC run is the monitor's, over the recorded executions
         design_run = {"module": spec + " (monitor; TLC states over the recorded runs)", "states": val["tstats"]["trace_states"],
@@ -112,4 +125,5 @@ def run(ctx: core.Ctx) -> core.Outcome:
     return core.Outcome(level="model_checking", coverage=cov, violations=viols, assumptions=[
         "virtual time: engine.tick(t, dt) is called directly with a NullTimer; requests are applied between ticks",
         "instrumented UOD and recording hardware (harness/engdriver.py); device memory starts with a non-safe value",
-        "TLC-generated RunState behaviours are input schedules; the verdict comes from the monitor's named clauses"])
+        "TLC-generated RunState behaviours are input schedules; the verdict comes from the monitor's named clauses",
+        "lock-step models (Interp.tla, CmdMgr.tla) are stepped with the recorded inputs and compared variable by variable after every tick"])
